@@ -104,6 +104,8 @@ fn annotate_fuzzy(q: &mut Value, fz: &Value) {
 fn family_match(r: &mut StdRng, scn: usize, fam: &str, n_req: usize, out: &mut Vec<Value>) -> Result<usize> {
   let mut knobs = Knobs::default();
   knobs.unicode_words = fam == "query";
+  // every other scenario of the query family: a segment that lost most of its documents
+  knobs.heavy_deletion = fam == "query" && scn % 2 == 1;
   let storage = storage_kind(r);
   let b = build_index(r, &knobs, storage)?;
   let reader = b.idx.reader()?;
@@ -171,6 +173,32 @@ fn family_match(r: &mut StdRng, scn: usize, fam: &str, n_req: usize, out: &mut V
         "ev": "search", "check": "match", "prop": "C07", "note": "fuzzy",
         "q": aq, "filters": [], "obs": obs_ids(&res), "req": req.to_string(),
       }));
+    }
+  }
+  // the most frequent body words under every execution strategy: their postings are the longest
+  // and, after deletions, the ones that outnumber the live documents of a segment
+  if fam == "query" {
+    let mut freq: std::collections::BTreeMap<String, usize> = std::collections::BTreeMap::new();
+    for d in b.versions.values() {
+      if let Some(t) = d.get("body").and_then(|v| v.as_str()) {
+        for w in t.split_whitespace() {
+          *freq.entry(w.to_lowercase()).or_default() += 1;
+        }
+      }
+    }
+    let mut common: Vec<(usize, String)> = freq.into_iter().map(|(w, n)| (n, w)).collect();
+    common.sort_by(|a, b| b.cmp(a));
+    for (_, w) in common.into_iter().take(3) {
+      for exec in ["wand", "bmw"] {
+        let q = Q::Term { field: "body".into(), value: w.clone(), boost: None };
+        let req = base_request(&q, None, n_slots + 5, exec);
+        let res = run_search(&reader, &req);
+        searches.push(json!({
+          "ev": "search", "check": "match", "prop": "C07", "note": "frequent word",
+          "q": abstract_query(&b.schema, &q, &default_fields(), true, 1.0, &mut dict),
+          "filters": [], "obs": obs_ids(&res), "req": req.to_string(),
+        }));
+      }
     }
   }
   // regular expressions as the whole query (inside random trees their effect is mostly masked)
